@@ -434,3 +434,67 @@ def _native_sv(msg, source):
 
 NATIVE_OPAQUE["bds09.airborne_velocity"] = _native_av
 NATIVE_OPAQUE["bds06.surface_velocity"] = _native_sv
+
+
+# NIC of ADS-B version 2 (DO-260B table 2-70 / 2-200): type code x (NIC supplement A, NIC supplement
+# B for airborne | C for surface).  None = combination not defined.
+def nic_v2_category(tc, nica, nicbc):
+    both0 = nica == 0 and nicbc == 0
+    both1 = nica == 1 and nicbc == 1
+    if tc == 7:
+        if nica == 1 and nicbc == 0:
+            return 9
+        return 8 if both0 else None
+    if tc == 8:
+        if both1:
+            return 7
+        return 0 if both0 else 6
+    if tc == 11:
+        if both1:
+            return 9
+        return 8 if both0 else None
+    if tc == 13:
+        return 6                      # supplements select the containment radius only
+    if tc == 16:
+        if both1:
+            return 3
+        return 2 if both0 else None
+    # type codes with a single NIC: only the supplement combination (0, 0) is defined
+    if not both0:
+        return None
+    if tc == 5 or tc == 9 or tc == 20:
+        return 11
+    if tc == 6 or tc == 10 or tc == 21:
+        return 10
+    if tc == 12:
+        return 7
+    if tc == 14:
+        return 5
+    if tc == 15:
+        return 4
+    if tc == 17:
+        return 1
+    return 0            # 18, 22
+
+
+def nic_v1_category(tc, nics):
+    """ADS-B version 1 (DO-260A table 2-70); type code 7 is not asserted (sources disagree)"""
+    if tc == 5 or tc == 9 or tc == 20:
+        return 11
+    if tc == 6 or tc == 10 or tc == 21:
+        return 10
+    if tc == 11:
+        return 9 if nics == 1 else 8
+    if tc == 12:
+        return 7
+    if tc == 13:
+        return 6
+    if tc == 14:
+        return 5
+    if tc == 15:
+        return 4
+    if tc == 16:
+        return 3 if nics == 1 else 2
+    if tc == 17:
+        return 1
+    return 0           # 8, 18, 22
